@@ -874,7 +874,8 @@ pub fn has_unordered_list_view(a: &dyn Array) -> bool {
 }
 
 /// Witness tags of a write: "cdc" (content-defined chunking on), "unordered-listview"
-/// (see [`has_unordered_list_view`]).
+/// (see [`has_unordered_list_view`]). A [`WriteFail`] from a writer panic with CDC on additionally
+/// carries "ok-without-cdc" or "fails-without-cdc" (the same batches written without CDC).
 pub fn write_tags(batches: &[RecordBatch], props: &DrawnProps) -> Vec<&'static str> {
     let mut t = Vec::new();
     if props.cdc {
@@ -884,6 +885,29 @@ pub fn write_tags(batches: &[RecordBatch], props: &DrawnProps) -> Vec<&'static s
         t.push("unordered-listview");
     }
     t
+}
+
+/// After a writer panic with content-defined chunking on: write the same batches serially with the
+/// same properties minus CDC. Returns the witness tag "fails-without-cdc" if the very same panic
+/// (message and location) happens again, else "ok-without-cdc" (classification of the witness
+/// only, never a verdict).
+fn probe_without_cdc(schema: &SchemaRef, batches: &[RecordBatch], props: &WriterProperties, original: &str) -> &'static str {
+    let r = guard(|| -> Result<(), String> {
+        let p = props.clone().into_builder().set_content_defined_chunking(None).build();
+        let mut buf: Vec<u8> = Vec::new();
+        let mut w = ArrowWriter::try_new(&mut buf, schema.clone(), Some(p)).map_err(|e| e.to_string())?;
+        for b in batches {
+            w.write(b).map_err(|e| e.to_string())?;
+        }
+        w.close().map_err(|e| e.to_string())?;
+        Ok(())
+    });
+    match r {
+        // the very same panic (message and location) happens without CDC: not a CDC defect
+        Err(p) if original.contains(&format!("{} @ {}", p.msg, p.loc)) => "fails-without-cdc",
+        // written fine, or stopped by something else (another defect / refusal in the same file)
+        _ => "ok-without-cdc",
+    }
 }
 
 /// One-stop generator: schema + rows + properties + batch split + write.
@@ -1073,6 +1097,9 @@ pub fn write_logical(
         Err(p) => {
             let mut f = panic_fail(p, stage_cell.get(), desc.clone());
             f.tags = tags.clone();
+            if props.cdc {
+                f.tags.push(probe_without_cdc(&logical.schema, &batches, &props.props, &f.msg));
+            }
             return Err(f);
         }
     };
